@@ -10,7 +10,7 @@
       | (blk (GROUP ...))              the ledger appended a block with these groups
       | (onb round (txid ...) OBS)     OnNewBlock(block of that round, delta with these Txids)
    GROUP = (TX ...), TX = (id kind snd rcv amt fee fv lv lease close enc ib gid)
-   OBS = (res ((txid ...) ...) nsp over npwb ftm fpb sync esync replay):
+   OBS = (res ((txid ...) ...) nsp over npwb ftm fpb sync esync replay (txid ...) (txid ...) cnt):
       error tag of the call ("ok" / "none"), PendingTxGroups as txid lists, number of pending
       singleton state-proof groups, stateproofOverflowed, numPendingWholeBlocks,
       feeThresholdMultiplier, FeePerByte(), sync: the pool's evaluator is for latest+1, esync:
@@ -18,7 +18,9 @@
       the round the pool was working on has been delivered since the ledger last grew; computed
       by the harness from its own calls), and the index of the first pending group that an
       independent fresh evaluator at the latest round rejects when the pending groups are
-      replayed in order (-1: none; only computed when esync).
+      replayed in order (-1: none; only computed when esync); then the pool's other views of
+      what it holds: the keys PendingTxIDs() returns, the txids (among all transactions the
+      harness ever built) that Lookup() reports as still in the pool, and PendingCount().
    spec_ok (obs_hard_ok / obs_trans_ok / overflow_class) looks ONLY at the inputs and the observations.
    No proofs in this file. *)
 From Coq Require Import NArith ZArith List Bool String.
@@ -36,7 +38,10 @@ Record obs : Type := mkObs {
   o_npwb : N; o_ftm : N; o_fpb : N;
   o_sync : bool;                (* the implementation's evaluator is for latest+1 *)
   o_esync : bool;               (* the call sequence obliges the pool to be in sync *)
-  o_replay : Z
+  o_replay : Z;
+  o_ids : list N;               (* PendingTxIDs() *)
+  o_lkp : list N;               (* txids for which Lookup() answers "in the pool" *)
+  o_cnt : N                     (* PendingCount() *)
 }.
 
 Fixpoint nodupb (l : list N) : bool :=
@@ -45,6 +50,8 @@ Fixpoint nodupb (l : list N) : bool :=
   | x :: r => negb (existsb (N.eqb x) r) && nodupb r
   end.
 Definition memb (x : N) (l : list N) : bool := existsb (N.eqb x) l.
+Definition subsetb (a b : list N) : bool := forallb (fun x => memb x b) a.
+Definition same_set (a b : list N) : bool := subsetb a b && subsetb b a.
 Definition total (o : obs) : N := N.of_nat (List.length (List.concat (o_pend o))).
 
 (* admitted = the operation was a Remember that returned nil; would = the oracle's answer *)
@@ -54,7 +61,11 @@ Definition obs_hard_ok (maxsize : N) (committed : list N) (admitted : bool) (wou
   && (negb (o_esync o) || forallb (fun id => negb (memb id committed)) (List.concat (o_pend o)))
   && (negb (o_esync o) || (o_replay o =? -1)%Z)
   && (total o <=? maxsize + o_nsp o)
-  && negb (admitted && (would =? 0)).
+  && negb (admitted && (would =? 0))
+  (* every view of "what the pool holds" shows exactly the transactions of the pending groups *)
+  && same_set (o_ids o) (List.concat (o_pend o))
+  && same_set (o_lkp o) (List.concat (o_pend o))
+  && (o_cnt o =? total o).
 
 (* how PendingTxGroups may change across one call (inputs: the submitted group; observations:
    the pending lists before and after).  opk: 0 = first observation, 1 = Remember, 2 = OnNewBlock *)
@@ -118,9 +129,13 @@ Definition tag_code (s : string) : option (option N) :=
 
 Definition as_obs (t : term) : option obs :=
   match t with
-  | TL [TS res; TL pend; nsp; over; npwb; ftm; fpb; sync; esync; TZ replay] =>
+  | TL [TS res; TL pend; nsp; over; npwb; ftm; fpb; sync; esync; TZ replay; ids; lkp; cnt] =>
       match tag_code res, map_opt as_N_list pend, as_N nsp, as_bool over, as_N npwb, as_N ftm, as_N fpb, as_bool sync, as_bool esync with
-      | Some r, Some p, Some a, Some b, Some c, Some d, Some e, Some f, Some g => Some (mkObs r p a b c d e f g replay)
+      | Some r, Some p, Some a, Some b, Some c, Some d, Some e, Some f, Some g =>
+          match as_N_list ids, as_N_list lkp, as_N cnt with
+          | Some i, Some l, Some n => Some (mkObs r p a b c d e f g replay i l n)
+          | _, _, _ => None
+          end
       | _, _, _, _, _, _, _, _, _ => None
       end
   | _ => None
@@ -156,7 +171,9 @@ Definition upd (c : kst) (idx : N) (s' : option psys) (com : list N) (hard : boo
   let npend := N.of_nat (List.length (o_pend o)) in
   mkK s' com (k_hard c && hard) (N.max (k_cls c) (overflow_class maxsize o))
       (k_corr c && good)
-      (if k_corr c && negb good then TL [tn idx; match mobs with Some m => m | None => TS "model_lost" end] else k_first c)
+      (if k_hard c && negb hard then TL [tn idx; TS "spec_fails_at_this_operation"]
+       else if negb (k_hard c) then k_first c
+       else if k_corr c && negb good then TL [tn idx; match mobs with Some m => m | None => TS "model_lost" end] else k_first c)
       false
       (if adm then k_adm c + 1 else k_adm c) (if rej then k_rej c + 1 else k_rej c)
       (if isonb && (npend <? N.of_nat (List.length (k_prev c))) then k_drop c + 1 else k_drop c)
